@@ -60,7 +60,7 @@ REQUIRED_PROBES["thorough"] = REQUIRED_PROBES["quick"]
 
 # "sim/a" / "SIM/B" / "SÏM/Ü": other ids than "Sim/A" / "Sim/B" / "Sïm/Ü" (ids are compared as they are written)
 ID_POOL = ["Sim/A", "Sim/B", "/Sim/A", "Europe/Berlin", "W. Europe Standard Time", "Sïm/Ü", "Sim/B/", "sim/a", "SIM/B",
-           "SÏM/Ü"]
+           "SÏM/Ü", "(UTC+01:00) Sim, City; Town"]     # display names as ids: TEXT escapes in the TZID property
 PROVIDER_ZONE = {"Europe/Berlin": "Europe/Berlin", "W. Europe Standard Time": "Europe/Berlin"}
 UTC = timezone.utc
 COMP_PROPS = {"VEVENT": ["DTSTART", "DTEND", "RECURRENCE-ID", "RDATE", "EXDATE"], "VTODO": ["DTSTART", "DUE", "RDATE"],
@@ -85,6 +85,8 @@ def id_class(tzid):
         return "slash"
     if tzid in ("sim/a", "SIM/B", "SÏM/Ü"):
         return "case-variant"
+    if "," in tzid:
+        return "display-name"
     return "custom"
 
 
@@ -223,7 +225,9 @@ def calendar_text(cal, defs, style="plain"):
         lines.append(f"UID:u{n}")
         for p in cp["props"]:
             par = ";TZID=" + p["tzid"]
-            if style == "quoted":
+            if any(ch in p["tzid"] for ch in ",;:"):
+                par = ';TZID="' + p["tzid"] + '"'           # such an id has to be quoted
+            elif style == "quoted":
                 par = ';TZID="' + p["tzid"] + '"'           # a quoted parameter value means the same
             elif style == "value-param" and p["name"] not in ("FREEBUSY",):
                 par = ";VALUE=DATE-TIME" + par            # the default value type given explicitly
@@ -318,6 +322,7 @@ def dateutil_direct(d):
         # dateutil rejects unknown ones outright
         core = dict(d, obs=[{k2: v for k2, v in ob.items() if k2 not in ("extras", "lang")} for ob in d["obs"]])
         core.pop("extras", None)
+        core.pop("tzid_param", None)
         try:
             _DU_CACHE[k] = dateutil.tz.tzical(StringIO(zonegen.vtimezone_text(core))).get()
         except Exception:
@@ -542,6 +547,8 @@ def _probe_shape(res, entry):
         res.probe("utc_instant_family")
     if meta.get("tzname_language"):
         res.probe("tzname_with_language")
+    if meta.get("tzid_with_parameter"):
+        res.probe("tzid_property_with_parameter")
     if any(ob.get("name") is None for ob in d["obs"]):
         res.probe("no_tzname")
     if d["tzid"].startswith("/"):
